@@ -15,6 +15,13 @@ type checker struct {
 
 var checkers = map[string]checker{}
 
+// needs: packages (import-path suffix) a property's rules are anchored in; a secondary build configuration that excludes one
+// of them by build constraint (anko.go and ast/astutil are `!appengine`) has nothing of that property to check.
+var needs = map[string][]string{
+	"C17": {"ast/astutil:Walk"},
+	"C18": {"@main"},
+}
+
 func register(id, title string, run func(p *Program, r *Report)) {
 	checkers[id] = checker{title, run}
 }
@@ -101,7 +108,26 @@ func main() {
 			r.Configs = append(r.Configs, p.Config)
 			if ci > 0 {
 				// secondary configurations: run the same rules, tag the instances
+				missing := ""
+				for _, n := range needs[id] {
+					if n == "@main" {
+						if p.SSAPkg("") == nil || p.SSAPkg("").Func("main") == nil {
+							missing = "package main"
+						}
+					} else if i := strings.Index(n, ":"); i >= 0 {
+						if sp := p.SSAPkg(n[:i]); sp == nil || sp.Func(n[i+1:]) == nil {
+							missing = n[:i] + "." + n[i+1:]
+						}
+					} else if p.SSAPkg(n) == nil {
+						missing = n
+					}
+				}
+				if missing != "" {
+					r.Note(fmt.Sprintf("secondary_config_skipped [%s]", strings.TrimSpace(strings.Join(append(opt.Tags, opt.Env...), " "))), missing+" is excluded from this build configuration by a build constraint: nothing of this property to check there")
+					continue
+				}
 				sub := NewReport(id, tier)
+				sub.Secondary = true
 				runChecker(id, p, sub)
 				suffix := fmt.Sprintf(" [%s]", strings.TrimSpace(strings.Join(append(opt.Tags, opt.Env...), " ")))
 				primary := map[string]bool{}
